@@ -273,9 +273,15 @@ def coverage_run(ctx, scns):
     rep.extra["functions_reached"] = {f: funcs[f] for f in MUST_REACH if f in funcs}
     rep.extra["core_functions_executed"] = sum(1 for v in funcs.values() if v > 0)
     # reach obligation on line coverage per core file (function names may change under refactoring; the files are the anchor)
-    for fn, need in (("lltdBlock.c", 70), ("lltdAutomata.c", 70), ("lltdTlvOps.c", 50), ("lltdWire.c", 50), ("lltd_esp32.c", 40)):
+    # (a refactoring may leave part of a helper file unused - negative control B23 routes the Hello past most of lltdTlvOps.c -
+    # so the helper files have low per-file thresholds and the core as a whole carries the obligation)
+    for fn, need in (("lltdBlock.c", 70), ("lltdAutomata.c", 70), ("lltdTlvOps.c", 30), ("lltdWire.c", 30), ("lltd_esp32.c", 40)):
         got = files.get(fn, {}).get("executed_pct", 0.0)
         rep.need("line-coverage:%s>=%d%%" % (fn, need), int(got), need)
+    tot = sum(v["lines"] for k, v in files.items() if k.endswith(".c"))
+    hit = sum(v["lines"] * v["executed_pct"] / 100.0 for k, v in files.items() if k.endswith(".c"))
+    rep.extra["core_line_coverage_total_pct"] = round(100.0 * hit / tot, 1) if tot else 0.0
+    rep.need("line-coverage:core>=70%", int(100.0 * hit / tot) if tot else 0, 70)
 
 
 def run(ctx):
